@@ -78,6 +78,8 @@ def cases(tier: str, seed: int) -> list[dict]:
                     out.append({"sc": "connection", "kind": "beam", "dim": bdim, "et": ["SEG2", "SEG3"][bdim % 2], "theory": theory, "conn": conn, "solver": "scipy"})
         for kind, dim, et in [("hyperelastic", 2, "TRI3"), ("hyperelastic", 3, "TETRA4"), ("inelastic", 2, "QUAD4"), ("inelastic", 3, "TETRA4")]:
             out.append({"sc": "newton", "kind": kind, "dim": dim, "et": et, "solver": "scipy"})
+        for kind, dim, et in [("elastic", 2, "QUAD4"), ("thermal", 2, "TRI3"), ("probe", 2, "TRI3"), ("elastic", 3, "TETRA4"), ("beam2", 2, "SEG2"), ("weakforms", 2, "TRI6")]:
+            out.append({"sc": "history", "kind": kind, "dim": dim, "et": et, "solver": "scipy"})
         out.append({"sc": "lsq", "kind": "phasefield", "dim": 2, "et": "TRI3", "solver": "lsq_linear"})
         out.append({"sc": "lsq", "kind": "phasefield", "dim": 2, "et": "QUAD4", "solver": "lsq_linear"})
     for i, c in enumerate(out):
@@ -219,11 +221,43 @@ def _residual_checks(ctx: Ctx, simu, sh: Shadow, u, key, tol_res, oracle="free-r
 
 def run_case(case: dict, ctx: Ctx) -> None:
     rng = np.random.default_rng([case["seed"], NUM, case["index"]])
-    {"bcprog": run_bcprog, "orphans": run_orphans, "backend": run_backend, "lagrange": run_lagrange,
+    {"history": run_history, "bcprog": run_bcprog, "orphans": run_orphans, "backend": run_backend, "lagrange": run_lagrange,
      "connection": run_connection, "newton": run_newton, "lsq": run_lsq}[case["sc"]](case, ctx, rng)
 
 
 # ------------------------------------------------------------------------------------------
+def run_history(case, ctx, rng):
+    """Several load cases on ONE simulation object, separated by Bc_Init(): each new condition set has the same number
+    of conditions and of constrained dofs as the previous one but sits on other nodes / components (anything cached
+    from the previous set and keyed by counts would be reused wrongly)."""
+    key = f"C04/history/{case['kind']}"
+    ctx.default_key = key
+    with ctx.monitored("no-exception", key + "/raised"):
+        simu, info = _make(case["kind"], rng, case["dim"], case["et"])
+    used = gm.used_nodes(simu.mesh)
+    k = max(2, min(5, len(used) // 4))
+    nt = False
+    programs = []
+    for step in range(4):
+        with ctx.monitored("no-exception", key + "/raised"):
+            with quiet(), ctx.capture_warnings():
+                simu.Bc_Init()
+                sh = Shadow(simu)
+                perm = rng.permutation(used)
+                A, B = perm[:k], perm[k:2 * k]
+                # same call pattern every time: all unknowns on A (zero), first unknown on B (non-zero), one load
+                sh.dirichlet(A, [0.0] * sh.dof_n, sh.unknowns)
+                comp = sh.unknowns[step % sh.dof_n]
+                sh.dirichlet(B, [0.01 * (step + 1)], [comp])
+                rest = perm[2 * k:]
+                if len(rest):
+                    simu.add_neumann(rest[:1], [0.5], [sh.unknowns[-1]])
+                u = simu.Solve()
+        nt |= _residual_checks(ctx, simu, sh, u, key + f"/step{min(step, 1)}", 1e-9)
+        programs.append([int(len(A)), int(len(B)), comp])
+    ctx.describe(f"history/{case['kind']}/{case['et']}", nt, kind=case["kind"], et=case["et"], steps=4, programs=programs)
+
+
 def run_bcprog(case, ctx, rng):
     key = f"C04/bcprog/{case['kind']}"
     ctx.default_key = key
